@@ -20,6 +20,11 @@ var optRepo = "/repo"
 
 var replayCache = map[string]string{}
 
+var (
+	replaySecs  = map[string]float64{}
+	replayTotal float64
+)
+
 func replayCounterexample(prop string, r *Result, rp map[string]interface{}, verifDir string) bool {
 	// obligation name: pkg.Func[class]/kind...
 	name := r.Ob.Func
@@ -73,6 +78,22 @@ func replayCounterexample(prop string, r *Result, rp map[string]interface{}, ver
 		rp["replay"] = "confirmed on the real code (same failing input as a sibling obligation)"
 		return true
 	}
+	if out, ok := replayCache[key]; ok && replaySecs[key] > 15 {
+		// the same oracle already ran for a sibling obligation of this function, took long and confirmed nothing
+		rp["replay_output"] = out
+		rp["replay"] = "the oracle found no failing input (same oracle run as for a sibling obligation)"
+		return false
+	}
+	if replayTotal > 420 {
+		rp["replay"] = "not replayed: the replay time budget of this check (7 minutes) is used up"
+		return false
+	}
+	t0 := time.Now()
+	defer func() {
+		d := time.Since(t0).Seconds()
+		replaySecs[key] = d
+		replayTotal += d
+	}()
 	ctx, cancel := context.WithTimeout(context.Background(), 120*time.Second)
 	defer cancel()
 	args := []string{"test", "-overlay", ovFile, "-vet=off", "-count=1", "-timeout", "60s", "-run", "^TestVerifReplay$", "./" + pkgDir}
